@@ -52,7 +52,7 @@ Proof.
   - intros H4 H2. destruct (h_status r =? 404) eqn:E4; [lia|]. destruct (h_status r =? 200) eqn:E2; [lia|]. reflexivity.
 Qed.
 
-(* total: a Get answers error, miss or found — it never panics — and every fault (transport error,
+(* total: a Get answers error, miss or found, and every fault (transport error,
    status other than 200, missing / unparsable Content-Length, short or non-positive blob header)
    gives error or miss *)
 Lemma http_get_total v2cas rp :
@@ -108,12 +108,13 @@ Qed.
 (* ------------------------------------------------------------------ *)
 (* grpcproxy.Get *)
 
-Lemma fetch_digest_inv hex_ok fb d :
-  fetch_digest hex_ok fb = FDDigest d -> hex_ok = true /\ fb = FBResp 0 d.
+Lemma fetch_digest_inv hex_ok fb s :
+  fetch_digest hex_ok fb = FDDigest s -> hex_ok = true /\ fb = FBResp 0 (Some s).
 Proof.
   unfold fetch_digest, code_NotFound, code_OK. destruct hex_ok; cbn [negb]; [|discriminate].
   destruct fb as [c|st d']; [discriminate|].
   destruct (st =? 5) eqn:E5; [discriminate|]. destruct (st =? 0) eqn:E0; cbn [negb]; [|discriminate].
+  destruct d' as [s'|]; [|discriminate].
   intros H; inversion H. split; [reflexivity|]. f_equal. lia.
 Qed.
 
@@ -132,7 +133,7 @@ Proof.
   - destruct (g_ac g) as [c|n]; [destruct (c =? code_NotFound); discriminate|].
     intros H; inversion H; subst. repeat split.
   - destruct (size <? 0) eqn:Es.
-    + destruct (fetch_digest hex_ok (g_fb g)) as [|[s'|]] eqn:Ef; try discriminate.
+    + destruct (fetch_digest hex_ok (g_fb g)) as [|s'] eqn:Ef; try discriminate.
       destruct (rd_open_err (g_rd g)); [discriminate|].
       intros H; inversion H; subst. apply fetch_digest_inv in Ef. destruct Ef as (-> & ->). repeat split.
     + destruct (rd_open_err (g_rd g)); [discriminate|].
@@ -151,7 +152,7 @@ Proof.
     + destruct (g_ac g) as [c|n]; [|discriminate]. destruct (c =? 5) eqn:E; [|discriminate].
       intros _. split; [discriminate|]. f_equal. lia.
     + destruct (size <? 0).
-      * destruct (fetch_digest hex_ok (g_fb g)) as [|[s'|]]; try discriminate;
+      * destruct (fetch_digest hex_ok (g_fb g)) as [|s']; try discriminate;
           destruct (rd_open_err (g_rd g)); discriminate.
       * destruct (rd_open_err (g_rd g)); discriminate.
     + destruct (g_ac g) as [c|n]; [|discriminate]. destruct (c =? 5) eqn:E; [|discriminate].
@@ -159,70 +160,45 @@ Proof.
   - intros (Hk & Ha). destruct k; [| congruence |]; rewrite Ha; reflexivity.
 Qed.
 
-(* The Get panics exactly when the size is unknown and FetchBlob answers OK without a blob_digest *)
-Lemma grpc_get_panic_iff k hex_ok size g site :
-  grpc_get k hex_ok size g = PPanic site <->
-  k = CAS /\ size < 0 /\ hex_ok = true /\ g_fb g = FBResp 0 None /\ site = site_get.
-Proof.
-  unfold grpc_get. split.
-  - destruct k.
-    + destruct (g_ac g) as [c|n]; [destruct (c =? code_NotFound)|]; discriminate.
-    + destruct (size <? 0) eqn:Es.
-      * destruct (fetch_digest hex_ok (g_fb g)) as [|[s'|]] eqn:Ef; try discriminate.
-        -- destruct (rd_open_err (g_rd g)); discriminate.
-        -- intros H; inversion H. apply fetch_digest_inv in Ef. destruct Ef as (-> & ->).
-           repeat split; lia.
-      * destruct (rd_open_err (g_rd g)); discriminate.
-    + destruct (g_ac g) as [c|n]; [destruct (c =? code_NotFound)|]; discriminate.
-  - intros (-> & Hs & -> & Hf & ->). destruct (size <? 0) eqn:Es; [|lia]. rewrite Hf. reflexivity.
-Qed.
-
-(* the backend's FetchBlob answers carry a digest whenever they say OK *)
-Definition fb_has_digest (g : gscript) : Prop :=
-  match g_fb g with FBResp st None => st <> 0 | _ => True end.
-
+(* total: for EVERY backend answer a Get returns error, miss or found *)
 Lemma grpc_get_total k hex_ok size g :
-  fb_has_digest g ->
   grpc_get k hex_ok size g = PErr \/ grpc_get k hex_ok size g = PMiss \/
   exists s d e, grpc_get k hex_ok size g = PFound s d e.
-Proof.
-  intros Hd. destruct (grpc_get k hex_ok size g) as [| |s d e|site] eqn:E; eauto.
-  - right; right; eauto.
-  - exfalso. apply grpc_get_panic_iff in E. destruct E as (_ & _ & _ & Hf & _).
-    unfold fb_has_digest in Hd. rewrite Hf in Hd. congruence.
-Qed.
+Proof. destruct (grpc_get k hex_ok size g) as [| |s d e]; eauto. right; right; eauto. Qed.
 
-(* the full statement "every backend answer gives error, miss or found" ... *)
-Definition grpc_get_never_panics : Prop :=
-  forall k hex_ok size g site, grpc_get k hex_ok size g <> PPanic site.
-
-(* ... is false of the code as it is: FetchBlob answering OK without a blob_digest *)
-Lemma grpc_get_never_panics_refuted : ~ grpc_get_never_panics.
+(* an OK answer of FetchBlob that carries no blob_digest is an error for Get and "no" for Contains
+   (it used to be a nil dereference) *)
+Lemma grpc_no_digest_is_error hex_ok size g st :
+  size < 0 -> g_fb g = FBResp st None ->
+  grpc_get CAS hex_ok size g = PErr /\ grpc_contains CAS hex_ok size g = HasNo.
 Proof.
-  intros H.
-  apply (H CAS true (-1) (mkG (ACErr 5) (FBResp 0 None) FMErr (mkRd false [] false)) site_get).
-  reflexivity.
+  intros Hs Hf. unfold grpc_get, grpc_contains. destruct (size <? 0) eqn:Es; [|lia].
+  assert (E : fetch_digest hex_ok (g_fb g) = FDErr).
+  { unfold fetch_digest. rewrite Hf. destruct hex_ok; cbn [negb]; [|reflexivity].
+    destruct (st =? code_NotFound); [reflexivity|]. destruct (negb (st =? code_OK)); reflexivity. }
+  rewrite E. split; reflexivity.
 Qed.
 
 Definition grpc_fault (k : kind) (hex_ok : bool) (size : Z) (g : gscript) : Prop :=
   match k with
   | CAS => rd_open_err (g_rd g) = true \/
            (size < 0 /\ (hex_ok = false \/ (exists c, g_fb g = FBErr c) \/
-                         (exists st d, g_fb g = FBResp st d /\ st <> 0)))
+                         (exists st d, g_fb g = FBResp st d /\ st <> 0) \/
+                         (exists st, g_fb g = FBResp st None)))
   | _ => exists c, g_ac g = ACErr c
   end.
 
 Lemma grpc_get_fault_degrades k hex_ok size g :
-  fb_has_digest g -> grpc_fault k hex_ok size g ->
+  grpc_fault k hex_ok size g ->
   grpc_get k hex_ok size g = PErr \/ grpc_get k hex_ok size g = PMiss.
 Proof.
-  intros Hd F. destruct (grpc_get_total k hex_ok size g Hd) as [H|[H|(s & d & e & H)]];
+  intros F. destruct (grpc_get_total k hex_ok size g) as [H|[H|(s & d & e & H)]];
     [left; exact H|right; exact H|].
   exfalso. apply grpc_get_found_inv in H. destruct k.
   - destruct F as (c & F). destruct H as (H & _). congruence.
   - destruct H as (Ho & _ & _ & Hs). destruct F as [F|(Hneg & F)]; [congruence|].
     destruct (size <? 0) eqn:Es; [|lia]. destruct Hs as (Hh & Hf).
-    destruct F as [F|[(c & F)|(st & d' & F & Hst)]]; try congruence;
+    destruct F as [F|[(c & F)|[(st & d' & F & Hst)|(st & F)]]]; try congruence;
       rewrite Hf in F; inversion F; lia.
   - destruct F as (c & F). destruct H as (H & _). congruence.
 Qed.
@@ -237,19 +213,23 @@ Lemma grpc_contains_yes_inv k hex_ok size g s :
   end.
 Proof.
   unfold grpc_contains. destruct k.
-  - destruct (grpc_get AC hex_ok size g) as [| |n d e|] eqn:E; try discriminate.
+  - destruct (grpc_get AC hex_ok size g) as [| |n d e] eqn:E; try discriminate.
     destruct (n <? 0) eqn:En; [discriminate|]. intros H; inversion H; subst.
     apply grpc_get_found_inv in E. destruct E as (E & _). split; [exact E|lia].
   - destruct (size <? 0) eqn:Es.
-    + destruct (fetch_digest hex_ok (g_fb g)) as [|[s'|]] eqn:Ef; try discriminate.
+    + destruct (fetch_digest hex_ok (g_fb g)) as [|s'] eqn:Ef; try discriminate.
       intros H; inversion H; subst. apply fetch_digest_inv in Ef. exact Ef.
     + destruct (g_fm g) as [|n] eqn:Ef; [discriminate|].
       destruct (n >? 0) eqn:En; [discriminate|]. intros H; inversion H; subst.
       split; [reflexivity|]. exists n. split; [reflexivity|lia].
-  - destruct (grpc_get RAW hex_ok size g) as [| |n d e|] eqn:E; try discriminate.
+  - destruct (grpc_get RAW hex_ok size g) as [| |n d e] eqn:E; try discriminate.
     destruct (n <? 0) eqn:En; [discriminate|]. intros H; inversion H; subst.
     apply grpc_get_found_inv in E. destruct E as (E & _). split; [exact E|lia].
 Qed.
+
+Lemma grpc_contains_total k hex_ok size g :
+  grpc_contains k hex_ok size g = HasNo \/ exists s, grpc_contains k hex_ok size g = HasYes s.
+Proof. destruct (grpc_contains k hex_ok size g); eauto. Qed.
 
 (* ------------------------------------------------------------------ *)
 (* readcloser.go: with any read buffer size the adapter delivers exactly the concatenation of the
